@@ -49,6 +49,10 @@ def sysroot():
 
 def ensure_tools():
     missing = [p for p in (DRIVER, DATATOOL) if not os.path.exists(p)]
+    # a helper older than its source is stale (the fact files are keyed by the driver source digest, the binary is not)
+    for tool, src in ((DRIVER, os.path.join(VERIF, 'driver', 'src', 'main.rs')), (DATATOOL, os.path.join(VERIF, 'datatool', 'src', 'main.rs'))):
+        if os.path.exists(tool) and os.path.exists(src) and os.path.getmtime(src) > os.path.getmtime(tool):
+            missing.append(tool)
     if missing:
         # build on demand (setup.sh does the same); offline
         subprocess.check_call([os.path.join(VERIF, 'setup.sh')], cwd=VERIF)
